@@ -167,9 +167,9 @@ META = dict(
         'move-assign, call, destroy, empty call -> bad_function_call; every target destroyed exactly once, no leak. A lemma over the contracts '
         '(unbounded number of submit / serve / stop steps) concludes: never executed twice, never executed and cancelled, nothing left behind once stopped.'),
     level_note=(
-        'FAILS on the unchanged tree: (1) DEFECT (audit D2) - stop() joins the workers before it destroys (= cancels) the swapped-out closures: a running job that waits for a queued '
+        'History on the pinned tree: (1) DEFECT (audit D2), REPAIRED by /repo commit 2c65eee - stop() joined the workers before it destroys (= cancels) the swapped-out closures: a running job that waits for a queued '
         'submission of the same pool is never released, stop() never returns; obligation C11-JOIN-ORDER in the join primitive (unit stop), native replay/c11_join_before_cancel.cpp, '
-        'patch specs/C11/fix_join_before_cancel.diff (unit verifies completely with it).  (2) OPEN FINDING (audit D1, marker C11-OPEN2-workers-taken-by-concurrent-stop, units dtor and '
+        'patch specs/C11/fix_join_before_cancel.diff = that commit.  (2) OPEN FINDING (reported as KNOWN-FINDING) (audit D1, marker C11-OPEN2-workers-taken-by-concurrent-stop, units dtor and '
         'stop_concurrent) - stop() hands the whole worker list to the FIRST caller; a second stop() / ~thread_pool arriving while that caller (typically a job on a pool thread) is still '
         'joining finds an empty list and returns while workers run; after the destructor they lock the mutex of the destroyed pool; native replay/c11_stop_concurrent.cpp (modes dtor, stop; '
         'TSan heap-use-after-free with dtor_free).  No small repair: needs a live-worker hand-shake (count under the mutex + wait in stop()/~thread_pool with self-discount rules for pool threads).  '
